@@ -308,7 +308,7 @@ pub fn gen_case(seed: u64, idx: u64) -> Case {
         wr,
         wc,
         backtrack_cols: g.below(4) as usize,
-        backtrack_trials: *g.pick(&[0usize, 0, 1, 3, 10]),
+        backtrack_trials: *g.pick(&[0usize, 0, 1, 3, 10, 30, 200]),
         min_girth,
         girth_trials: *g.pick(&[0usize, 1, 5, 20]),
         fill_policy: if g.chance(1, 2) { FillPolicy::Uniform } else { FillPolicy::Random },
@@ -319,7 +319,9 @@ pub fn gen_case(seed: u64, idx: u64) -> Case {
         1 => g.below(1000),
         _ => g.next() >> 8,
     };
-    let tries = *g.pick(&[0u64, 1, 1, 2, 3, 5, 8, 12, 24]);
+    // (rarely a range longer than a pool's natural chunk sizes, of a length that no chunking
+    // divides evenly: seeded change C16-r8a-1 drops the tail of 65- and 129-seed ranges)
+    let tries = *g.pick(&[0u64, 1, 1, 2, 3, 5, 8, 12, 24, 24, 65, 129]);
     // per-schedule part
     let mut s = Stream::new(keyed(seed, &[idx, 99]), "c16-schedule");
     let pool = *s.pick(&[1usize, 2, 2, 3, 4, 4, 6, 8]);
@@ -335,6 +337,8 @@ type SideResult = Vec<(bool, u64, Result<SparseMatrix, String>)>;
 
 pub struct CaseObs {
     pub found: Option<(u64, SparseMatrix)>,
+    /// further searches of the same configuration in the same run: (start, tries, result)
+    pub followups: Vec<(u64, u64, Option<(u64, SparseMatrix)>)>,
     pub side: Vec<SideResult>,
     pub outcome_kind: &'static str,
     pub detail: String,
@@ -377,8 +381,20 @@ pub fn run_case(case: &Case) -> CaseObs {
             }));
         }
         let found = case.mn.search(case.start, case.tries);
+        // further searches in the same process: the part of the range before the seed found, the
+        // part after it, and the whole range again (whatever a search remembers from an earlier
+        // one must not change an answer: seeded change C16-r8b-1 keeps a memo of failed ranges)
+        let mut followups = Vec::new();
+        if let Some((s, _)) = &found {
+            let end = case.start.saturating_add(case.tries);
+            if *s >= case.start && *s < end && case.tries <= 24 {
+                for (a, t) in [(case.start, *s - case.start), (*s + 1, end - (*s + 1)), (case.start, case.tries)] {
+                    followups.push((a, t, case.mn.search(a, t)));
+                }
+            }
+        }
         let side: Vec<SideResult> = handles.into_iter().map(|h| h.join().unwrap_or_default()).collect();
-        (found, side)
+        (found, side, followups)
     });
     let items = out.events.iter().filter(|e| matches!(&e.ev, dstsim::Ev::User { tag: "par-item", .. })).count() as u64;
     let (kind, detail) = match &out.result {
@@ -389,8 +405,8 @@ pub fn run_case(case: &Case) -> CaseObs {
     };
     let (steps, hash, tasks) = (out.steps, out.event_hash, out.tasks.len());
     match out.result {
-        RunResult::Done((found, side)) => CaseObs { found, side, outcome_kind: kind, detail, steps, hash, items_evaluated: items, tasks },
-        _ => CaseObs { found: None, side: vec![], outcome_kind: kind, detail, steps, hash, items_evaluated: items, tasks },
+        RunResult::Done((found, side, followups)) => CaseObs { found, followups, side, outcome_kind: kind, detail, steps, hash, items_evaluated: items, tasks },
+        _ => CaseObs { found: None, followups: vec![], side: vec![], outcome_kind: kind, detail, steps, hash, items_evaluated: items, tasks },
     }
 }
 
@@ -460,6 +476,22 @@ pub fn oracle(case: &Case, obs: &CaseObs, stats: &mut Counters) -> Vec<Violation
             }
         }
     }
+    for (a, t, r) in &obs.followups {
+        stats.inc("follow-up search in the same run");
+        let sub: Vec<&(u64, Result<SparseMatrix, String>)> = seq.iter().filter(|x| x.0 >= *a && x.0 < a.saturating_add(*t)).collect();
+        match r {
+            Some((s, h)) => match sub.iter().find(|x| x.0 == *s) {
+                Some((_, Ok(h2))) if h2 == h => {}
+                Some(_) => v.push(Violation::new("search", format!("a later search({}, {}) in the same run returned seed {} with a matrix that seed does not produce (or the seed fails)", a, t, s))),
+                None => v.push(Violation::new("search", format!("a later search({}, {}) in the same run returned seed {} outside its range", a, t, s))),
+            },
+            None => {
+                if let Some(x) = sub.iter().find(|x| x.1.is_ok()) {
+                    v.push(Violation::new("search", format!("a later search({}, {}) in the same run found nothing although seed {} succeeds", a, t, x.0)));
+                }
+            }
+        }
+    }
     // side tasks: same (configuration, seed) in another simulated task, interleaved with the pool
     for list in &obs.side {
         for (is_peg, s, r) in list {
@@ -482,7 +514,8 @@ pub fn oracle(case: &Case, obs: &CaseObs, stats: &mut Counters) -> Vec<Violation
 /// PEG gets its own sweep (it has no search): configurations x seeds.
 fn peg_sweep(seed: u64, idx: u64, stats: &mut Counters) -> Option<(PegConfig, u64, String)> {
     let mut g = Stream::new(keyed(seed, &[idx]), "c16-peg");
-    let conf = PegConfig { nrows: 1 + g.below(10) as usize, ncols: 1 + g.below(14) as usize, wc: 1 + g.below(5) as usize };
+    // (column weight 0 is a configuration too: every column then has weight min(0, rows) = 0)
+    let conf = PegConfig { nrows: 1 + g.below(10) as usize, ncols: 1 + g.below(14) as usize, wc: if g.chance(1, 15) { 0 } else { 1 + g.below(5) as usize } };
     let s = if g.chance(1, 2) { g.below(50) } else { g.next() };
     match conf.run(s) {
         Ok(h) => {
@@ -513,7 +546,7 @@ fn mn_sweep(seed: u64, idx: u64, stats: &mut Counters) -> Option<(MnConfig, u64,
     // (one in eight: many rows, light columns — selection helpers that switch algorithm above
     // a size threshold: seeded change C16-r7-1 from 128 rows on)
     let many_rows = g.chance(1, 8);
-    let nrows = if many_rows { 120 + g.below(90) as usize } else { 10 + g.below(16) as usize };
+    let nrows = if many_rows { 120 + g.below(90) as usize } else { 10 + g.below(31) as usize };
     let ncols = if many_rows { nrows / 2 + g.below(nrows as u64) as usize } else { nrows + g.below(nrows as u64 + 1) as usize };
     let wc = if many_rows { 1 + g.below(2) as usize } else { 2 + g.below(2) as usize };
     let need = (ncols * wc).div_ceil(nrows);
@@ -524,7 +557,7 @@ fn mn_sweep(seed: u64, idx: u64, stats: &mut Counters) -> Option<(MnConfig, u64,
         wc,
         backtrack_cols: *g.pick(&[1usize, 2, 6, 10]),
         backtrack_trials: *g.pick(&[2usize, 5, 20, 50]),
-        min_girth: if many_rows { None } else { *g.pick(&[None, Some(6), Some(6), Some(8), Some(8)]) },
+        min_girth: if many_rows { None } else { *g.pick(&[None, Some(5), Some(6), Some(6), Some(8), Some(8)]) },
         girth_trials: *g.pick(&[2usize, 5, 20]),
         fill_policy: if many_rows || g.chance(1, 3) { FillPolicy::Uniform } else { FillPolicy::Random },
     };
